@@ -123,6 +123,21 @@ func runC20(c *Ctx) {
 		c.Law(back == res, "C20/wrap-unwrap", "unwrapping a wrapped resource returns the very same resource", n, fmt.Sprintf("%p vs %p", back, res))
 		e := bundle.NewCollectionEntry(res)
 		c.Law(bundle.UnwrapEntry(e) == res, "C20/entry-unwrap", "unwrapping a bundle entry returns the very same resource", n, "")
+		for kind, mk := range map[string]func() *bcrpb.Bundle_Entry{
+			"POST entry": func() *bcrpb.Bundle_Entry { return bundle.NewPostEntry(res) },
+			"PUT entry":  func() *bcrpb.Bundle_Entry { return bundle.NewPutEntry(res) },
+			"POST entry with a full URL": func() *bcrpb.Bundle_Entry { return bundle.NewPostEntry(res, bundle.WithGeneratedFullURL()) },
+		} {
+			var en *bcrpb.Bundle_Entry
+			_, epan, _ := safeErr(func() error { en = mk(); return nil })
+			if epan {
+				c.Count("entry-constructor-panic:" + kind)
+				continue
+			}
+			c.Law(bundle.UnwrapEntry(en) == res, "C20/entry-unwrap", "unwrapping a bundle entry returns the very same resource", n+" in a "+kind, "")
+			got := bundle.Unwrap(bundle.NewTransaction(bundle.WithEntries(en)))
+			c.Law(len(got) == 1 && got[0] == res, "C20/bundle-order", "a bundle unwraps to its entries' resources in order", n+" in a "+kind+" of a transaction bundle", fmt.Sprint(len(got)))
+		}
 		all = append(all, res)
 	}
 	// the exported type constants: each denotes the resource type it is named after (read from the source of
@@ -258,6 +273,45 @@ func runC20(c *Ctx) {
 		c.Law(extension.Unwrap(ext) == el, "C20/extension-unwrap", "unwrapping an extension returns the same element", name, "")
 		c.Law(ext.GetUrl().GetValue() == "http://example.org/e", "C20/extension-url", "extension carries the url", name, "")
 	}
+	// ---- upsert substitutes the whole value: nothing of the old value survives, whatever the new value leaves unset
+	{
+		vx := func(x *dtpb.Extension_ValueX) *dtpb.Extension { return &dtpb.Extension{Url: fhir.URI("u"), Value: x} }
+		fullCoding := &dtpb.Coding{System: fhir.URI("s"), Code: fhir.Code("c"), Display: fhir.String("d")}
+		vals := map[string]func() *dtpb.Extension_ValueX{
+			"Boolean true":  func() *dtpb.Extension_ValueX { return &dtpb.Extension_ValueX{Choice: &dtpb.Extension_ValueX_Boolean{Boolean: fhir.Boolean(true)}} },
+			"Boolean false": func() *dtpb.Extension_ValueX { return &dtpb.Extension_ValueX{Choice: &dtpb.Extension_ValueX_Boolean{Boolean: fhir.Boolean(false)}} },
+			"Integer 42":    func() *dtpb.Extension_ValueX { return &dtpb.Extension_ValueX{Choice: &dtpb.Extension_ValueX_Integer{Integer: fhir.Integer(42)}} },
+			"Integer 0":     func() *dtpb.Extension_ValueX { return &dtpb.Extension_ValueX{Choice: &dtpb.Extension_ValueX_Integer{Integer: fhir.Integer(0)}} },
+			"String abc":    func() *dtpb.Extension_ValueX { return &dtpb.Extension_ValueX{Choice: &dtpb.Extension_ValueX_StringValue{StringValue: fhir.String("abc")}} },
+			"String empty":  func() *dtpb.Extension_ValueX { return &dtpb.Extension_ValueX{Choice: &dtpb.Extension_ValueX_StringValue{StringValue: fhir.String("")}} },
+			"Coding full":   func() *dtpb.Extension_ValueX { return &dtpb.Extension_ValueX{Choice: &dtpb.Extension_ValueX_Coding{Coding: proto.Clone(fullCoding).(*dtpb.Coding)}} },
+			"Coding code only": func() *dtpb.Extension_ValueX {
+				return &dtpb.Extension_ValueX{Choice: &dtpb.Extension_ValueX_Coding{Coding: &dtpb.Coding{Code: fhir.Code("z")}}}
+			},
+			"CodeableConcept 2 codings": func() *dtpb.Extension_ValueX {
+				return &dtpb.Extension_ValueX{Choice: &dtpb.Extension_ValueX_CodeableConcept{CodeableConcept: &dtpb.CodeableConcept{Coding: []*dtpb.Coding{{Code: fhir.Code("a")}, {Code: fhir.Code("b")}}, Text: fhir.String("t")}}}
+			},
+			"CodeableConcept 1 coding": func() *dtpb.Extension_ValueX {
+				return &dtpb.Extension_ValueX{Choice: &dtpb.Extension_ValueX_CodeableConcept{CodeableConcept: &dtpb.CodeableConcept{Coding: []*dtpb.Coding{{Code: fhir.Code("c")}}}}}
+			},
+		}
+		var names []string
+		for n := range vals {
+			names = append(names, n)
+		}
+		sort.Strings(names)
+		for _, a := range names {
+			for _, b := range names {
+				p := &ppb.Patient{Extension: []*dtpb.Extension{{Url: fhir.URI("other"), Value: vals["Integer 42"]()}, vx(vals[a]()), {Url: fhir.URI("v"), Value: vals["String abc"]()}}}
+				want := vals[b]()
+				extension.Upsert(p, vx(vals[b]()))
+				ok := len(p.Extension) == 3 && p.Extension[1].GetUrl().GetValue() == "u" && proto.Equal(p.Extension[1].GetValue(), want) &&
+					proto.Equal(p.Extension[0].GetValue(), vals["Integer 42"]()) && proto.Equal(p.Extension[2].GetValue(), vals["String abc"]())
+				c.Observe("upsert value "+a+" -> "+b, true)
+				c.Law(ok, "C20/upsert-locality", "upsert changes only extensions with that URL (and gives them exactly the new value)", "upsert "+b+" over "+a, fmt.Sprint(p.Extension[1].GetValue()))
+			}
+		}
+	}
 	// ---- mutators
 	urls := []string{"u1", "u2", "u3", "http://x/flag", "http://x/flag/", "http://x/flag2", "http://x/flag/sub", "HTTP://x/flag"}
 	trials := 1500
@@ -330,9 +384,21 @@ func runC20(c *Ctx) {
 		per = 4
 	}
 	idx := regexp.MustCompile(`^(.*)\[(\d+)\]$`)
-	for _, rn := range resourceNames() {
+	for _, rn := range append(resourceNames(), "deep:QuestionnaireResponse", "deep:Questionnaire", "deep:Contract") {
 		for k := 0; k < per; k++ {
-			res, js := g.GenValid(rn, c)
+			var res fhir.Resource
+			var js []byte
+			if strings.HasPrefix(rn, "deep:") {
+				// hand-made, deeply nested: items within items (eight levels), each with an extension and a coded answer
+				js = []byte(deepResourceJSON(strings.TrimPrefix(rn, "deep:"), 8))
+				res = mustResource(string(js))
+				if k > 0 {
+					continue
+				}
+			} else {
+				res, js = g.GenValid(rn, c)
+			}
+			rn := strings.TrimPrefix(rn, "deep:")
 			if res == nil {
 				continue
 			}
@@ -571,4 +637,39 @@ func unwrapMapIsPartition(b *bcrpb.Bundle, picked []fhir.Resource) bool {
 		}
 	}
 	return true
+}
+
+// deepResourceJSON: items nested `depth` levels deep, every level with an extension, a coded answer / code and text.
+func deepResourceJSON(rn string, depth int) string {
+	var item func(d int) string
+	switch rn {
+	case "QuestionnaireResponse":
+		item = func(d int) string {
+			inner := ""
+			if d > 1 {
+				inner = `,"item":[` + item(d-1) + `]`
+			}
+			return fmt.Sprintf(`{"extension":[{"url":"http://example.org/l%d","valueString":"s%d"}],"linkId":"l%d","text":"t%d","answer":[{"valueCoding":{"extension":[{"url":"http://example.org/c%d","valueString":"deep%d"}],"system":"http://s","code":"c%d"}}]%s}`, d, d, d, d, d, d, d, inner)
+		}
+		return `{"resourceType":"QuestionnaireResponse","id":"deep","status":"completed","item":[` + item(depth) + `]}`
+	case "Questionnaire":
+		item = func(d int) string {
+			inner := ""
+			if d > 1 {
+				inner = `,"item":[` + item(d-1) + `,` + fmt.Sprintf(`{"linkId":"x%d","type":"string","text":"leaf"}`, d) + `]`
+			}
+			return fmt.Sprintf(`{"extension":[{"url":"http://example.org/l%d","valueCoding":{"system":"http://s","code":"e%d"}}],"linkId":"l%d","code":[{"system":"http://s","code":"c%d","display":"d%d"}],"type":"group","text":"t%d"%s}`, d, d, d, d, d, d, inner)
+		}
+		return `{"resourceType":"Questionnaire","id":"deep","status":"draft","item":[` + item(depth) + `]}`
+	default:
+		term := func(d int) string { return "" }
+		term = func(d int) string {
+			inner := ""
+			if d > 1 {
+				inner = `,"group":[` + term(d-1) + `]`
+			}
+			return fmt.Sprintf(`{"extension":[{"url":"http://example.org/l%d","valueString":"s%d"}],"identifier":{"system":"http://s","value":"v%d"},"text":"t%d","offer":{"text":"o%d","party":[{"reference":[{"reference":"Patient/p%d"}],"role":{"coding":[{"system":"http://s","code":"r%d"}]}}]}%s}`, d, d, d, d, d, d, d, inner)
+		}
+		return `{"resourceType":"Contract","id":"deep","term":[` + term(depth) + `]}`
+	}
 }
